@@ -308,13 +308,22 @@ func C11(tier string) int {
 		for _, x := range []string{"ORCPT=rfc822;~x!@d.example", "ORCPT=rfc822;x+7Ey+21@d.example", "ORCPT=utf-8;~x!@c.example"} {
 			add("RCPT", pth+" "+x)
 		}
-		for _, x := range []string{"ENVID=x+3dy", "ENVID=x+3Dy", "ENVID=x+2by", "AUTH=x+3dy@c.example", "AUTH=x+3Dy@c.example", "BODY=8bitmime", "BODY=7bit", "body=BinaryMime", "BODY=8BitMime SIZE=5", "ENVID=", "AUTH=", "RET=", "BODY=", "SIZE=", "SIZE=-1", "SIZE=1x", "ENVID=x+FFy", "ENVID=+80", "ENVID=x+07y", "ENVID=+00", "ENVID=x+7Fy", "AUTH=x+FFy@c.example", "AUTH=+80@c.example", "AUTH=x+00y@c.example", "AUTH=x+0Ay@c.example"} {
+		for _, x := range []string{"ENVID=x+3dy", "ENVID=x+3Dy", "ENVID=x+2by", "AUTH=x+3dy@c.example", "AUTH=x+3Dy@c.example", "BODY=8bitmime", "BODY=7bit", "body=BinaryMime", "BODY=8BitMime SIZE=5", "ENVID=", "AUTH=", "RET=", "BODY=", "SIZE=", "SIZE=-1", "SIZE=1x", "ENVID=x+FFy", "ENVID=+80", "ENVID=x+07y", "ENVID=+00", "ENVID=x+7Fy", "AUTH=x+FFy@c.example", "AUTH=+80@c.example", "AUTH=x+00y@c.example", "AUTH=x+0Ay@c.example", "AUTH=a@c.example>", "AUTH=a@c.example,b@c.example", "AUTH=a@c.example+3E"} {
 			add("MAIL", pth+" "+x)
 		}
 		for _, x := range []string{"NOTIFY=NEVER,SUCCESS", "NOTIFY=SUCCESS,NEVER", "NOTIFY=never,delay", "NOTIFY=NEVER,NEVER", "NOTIFY=SUCCESS,SUCCESS", "NOTIFY=NEVER,FAILURE,DELAY", "NOTIFY=FAILURE,NEVER,DELAY",
 			"ORCPT=rfc822;x+3dy@d.example", "ORCPT=rfc822;x+3Dy@d.example", "ORCPT=rfc822;", "ORCPT=utf-8;", "ORCPT=;a@d.example", "ORCPT=rfc822", "NOTIFY=", "NOTIFY=,", "NOTIFY=SUCCESS,", "RRVS=", "ORCPT=rfc822;x+FFy@d.example", "ORCPT=rfc822;x+07y@d.example", "ORCPT=rfc822;+80@d.example", "ORCPT=rfc822;x+00@d.example",
 			`ORCPT=utf-8;a\x{FFFFFFF}y@c.example`, `ORCPT=utf-8;a\x{110000}@c.example`, `ORCPT=utf-8;a\x{D800}@c.example`, `ORCPT=utf-8;a\x{DFFF}@c.example`, `ORCPT=utf-8;a\x{0}@c.example`, `ORCPT=utf-8;a\x{00}@c.example`,
-			`ORCPT=utf-8;a\x{FFFFFFFFFFFFFFFFF}@c.example`, `ORCPT=utf-8;a\x{10FFFF}@c.example`, `ORCPT=utf-8;a\x{E9}@c.example`, `ORCPT=utf-8;a\x{7F}@c.example`, `ORCPT=utf-8;a\x{}@c.example`, `ORCPT=utf-8;a\x{G1}@c.example`} {
+			`ORCPT=utf-8;a\x{FFFFFFFFFFFFFFFFF}@c.example`, `ORCPT=utf-8;a\x{10FFFF}@c.example`, `ORCPT=utf-8;a\x{E9}@c.example`, `ORCPT=utf-8;a\x{7F}@c.example`, `ORCPT=utf-8;a\x{}@c.example`, `ORCPT=utf-8;a\x{G1}@c.example`,
+			// the first and last value of every HEXPOINT form, and the same values with one leading zero (not minimal: malformed)
+			`ORCPT=utf-8;a\x{80}@c.example`, `ORCPT=utf-8;a\x{FF}@c.example`, `ORCPT=utf-8;a\x{100}@c.example`, `ORCPT=utf-8;a\x{FFF}@c.example`, `ORCPT=utf-8;a\x{1000}@c.example`, `ORCPT=utf-8;a\x{D7FF}@c.example`,
+			`ORCPT=utf-8;a\x{E000}@c.example`, `ORCPT=utf-8;a\x{FFFF}@c.example`, `ORCPT=utf-8;a\x{10000}@c.example`, `ORCPT=utf-8;a\x{FFFFF}@c.example`, `ORCPT=utf-8;a\x{100000}@c.example`,
+			`ORCPT=utf-8;a\x{080}@c.example`, `ORCPT=utf-8;a\x{0FF}@c.example`, `ORCPT=utf-8;a\x{0100}@c.example`, `ORCPT=utf-8;a\x{0FFF}@c.example`, `ORCPT=utf-8;a\x{01000}@c.example`, `ORCPT=utf-8;a\x{0FFFF}@c.example`,
+			`ORCPT=utf-8;a\x{010000}@c.example`, `ORCPT=utf-8;a\x{0FFFFF}@c.example`, `ORCPT=utf-8;a\x{0100000}@c.example`, `ORCPT=utf-8;a\x{0010FFFF}@c.example`, `ORCPT=utf-8;a\x{5}@c.example`, `ORCPT=utf-8;a\x{F}@c.example`,
+			// printable characters that stand for themselves have no HEXPOINT form; '\\', '+', '=' and DEL have one
+			`ORCPT=utf-8;a\x{41}@c.example`, `ORCPT=utf-8;a\x{21}@c.example`, `ORCPT=utf-8;a\x{7E}@c.example`, `ORCPT=utf-8;a\x{40}@c.example`, `ORCPT=utf-8;a\x{5C}b@c.example`, `ORCPT=utf-8;a\x{3D}b@c.example`,
+			// characters that never stand for themselves in the utf-8 form
+			`ORCPT=utf-8;a+b@c.example`, `ORCPT=utf-8;a=b@c.example`, `ORCPT=utf-8;a\b@c.example`, `ORCPT=utf-8;a\x41@c.example`, `ORCPT=utf-8;ab@c.example+`, `ORCPT=utf-8;+2Bab@c.example`} {
 			add("RCPT", pth+" "+x)
 		}
 	}
